@@ -4,6 +4,7 @@ import copy
 import functools as ft
 from typing import (
     Any,
+    Callable,
     Dict,
     List,
     Mapping,
@@ -361,16 +362,45 @@ class ASTTypeBuilder:
         return [self._build_input_field(node) for node in nodes]
 
     def _default_value(self, node: _ast.InputValueDefinition) -> Any:
+        literal = cast(_ast.Value, node.default_value)
+        type_ = self.build_type(node.type)
         try:
-            return value_from_ast(
-                cast(_ast.Value, node.default_value),
-                self.build_type(node.type),
-            )
+            return value_from_ast(literal, type_)
         except (InvalidValue, TypeError) as err:
+            # The literal may use members (enum values, input fields) which an
+            # extension of the same document adds to the type.
+            try:
+                return value_from_ast(literal, self.extend_type(type_))
+            except (InvalidValue, TypeError, SDLError):
+                pass
             raise SDLError(
                 'Invalid default value for "%s": %s' % (node.name.value, err),
                 [node],
             )
+
+    def _extended_default_value(
+        self,
+        element: Union[Argument, InputField],
+        extended_type: Callable[[], GraphQLType],
+    ) -> Any:
+        # The default value of an element written in SDL is the value of its
+        # literal in the type registered in the extended schema (an extension
+        # may e.g. add an input field with a default of its own): it is
+        # evaluated again, unless it has been changed in code since.
+        node = element.node
+        current = element._default_value
+        if (
+            not element.has_default_value
+            or node is None
+            or node.default_value is None
+        ):
+            return current
+        try:
+            if value_from_ast(node.default_value, element.type) != current:
+                return current
+            return value_from_ast(node.default_value, extended_type())
+        except (InvalidValue, TypeError, SDLError):
+            return current
 
     def _build_argument(self, node: _ast.InputValueDefinition) -> Argument:
         type_ = self.build_type(node.type)
@@ -573,7 +603,9 @@ class ASTTypeBuilder:
             field.name,
             # has to be lazy to support cyclic definition
             lambda: self.extend_type(field.type),
-            default_value=field._default_value,
+            default_value=self._extended_default_value(
+                field, lambda: self.extend_type(field.type)
+            ),
             description=field.description,
             node=field.node,
             python_name=field.python_name,
@@ -592,10 +624,13 @@ class ASTTypeBuilder:
         return extended
 
     def _extend_argument(self, argument: Argument) -> Argument:
+        extended_type = self.extend_type(argument.type)
         return Argument(
             argument.name,
-            self.extend_type(argument.type),
-            default_value=argument._default_value,
+            extended_type,
+            default_value=self._extended_default_value(
+                argument, lambda: extended_type
+            ),
             description=argument.description,
             node=argument.node,
             python_name=argument.python_name,
